@@ -10,7 +10,8 @@ EXPLANATION = (
     "interpolate(a, b, t) site is classified by its end points and its t = num/den is compared in linear normal form (0.5*x == x/2 == "
     "x*0.5): left tail a=min, b=mean(first): den = w_first/2; interior a=mean(prev), b=mean(cur): num = limit - (cum - w_prev/2), "
     "den = (w_prev + w_cur)/2; right tail a=mean(last), b=max: num = limit - (S - w_last/2), den = w_last/2 (mirror of the left "
-    "tail). cdf: interior sites interpolate (last_cum, cum + w/2) over (x - last_mean)/(mean - last_mean) with last_mean seeded by "
+    "tail); R15-segment-guards: the interior segment is selected when cum + w_cur/2 reaches limit, the left tail when limit <= "
+    "w_first/2, and — because the loop reads centroids[i-1] — the left-tail test is the same float comparison as the loop test at i = 0. cdf: interior sites interpolate (last_cum, cum + w/2) over (x - last_mean)/(mean - last_mean) with last_mean seeded by "
     "min and last_cum by 0; the right tail interpolates (last_cum, S) over (x - last_mean)/(max - last_mean); results are divided by "
     "S; x < min => 0, x >= max => 1. R15-merge-before-read: every public TDigest method that reads centroids calls inner.merge() on "
     "every path before the read, and merge returns without writing when the backlog is empty (repeated reads are identical). "
@@ -34,6 +35,7 @@ def mean_of(c):
 
 
 def run(ctx):
+    from .common import loop_exits_only_on_exhaustion
     # a digest that keeps state across clear() answers for a mixture of the old and the new data: C19's clear rules for TDigest
     from .C19 import run_clear_rules
     run_clear_rules(ctx, only_adt="tdigest::TDigestInner", floor=1)
@@ -59,21 +61,81 @@ def run(ctx):
     last = ("index", cents, mk("Sub", ("call", "std::vec::Vec::len", (cents,)), const(1)))
     cur = ("elem", cents)
     prev = ("index", cents, mk("Sub", ("enum_idx", cents), const(1)))
-    sites = {}
-    for bi, t in q.calls():
-        if t.callee() == ip.key:
-            a = [tb.operand(x, bi, len(q.blocks[bi].stmts)) for x in t.args]
-            kind = None
-            if a[0] == ("field", selfp, "min") and a[1] == mean_of(first):
-                kind = "left"
-            elif a[0] == mean_of(prev) and a[1] == mean_of(cur):
-                kind = "interior"
-            elif a[0] == mean_of(last) and a[1] == ("field", selfp, "max"):
-                kind = "right"
-            if kind is None:
-                ctx.shape("R15-knots", "%s:bb-site(%s,%s)" % (q.key, fmt(a[0])[:40], fmt(a[1])[:40]), t.span, "interpolate between unrecognised end points %s and %s" % (fmt(a[0]), fmt(a[1])))
+    def interp_sites(f, tbf):
+        """(block, terminator, [a, b, t]) for every interpolate(..) evaluated by f — called directly or inside a straight-line
+        helper that the term builder inlines"""
+        out = []
+        for bi, t in f.calls():
+            if not t.callee_is_local():
                 continue
-            sites[kind] = (bi, t, a)
+            ct = tbf.call_term(t, bi) if t.callee() != ip.key else ("call", ip.key, tuple(tbf.operand(x, bi, len(f.blocks[bi].stmts)) for x in t.args))
+            for sub in subterms(ct):
+                if sub[0] == "call" and sub[1] == ip.key and len(sub[2]) == 3:
+                    out.append((bi, t, list(sub[2])))
+        return out
+
+    def mean_arg(t):
+        """c if t is c.sum / c.count"""
+        if t[0] == "op" and t[1] == "Div" and len(t[2]) == 2 and t[2][0][0] == "field" and t[2][1][0] == "field" \
+                and t[2][0][2] == "sum" and t[2][1][2] == "count" and t[2][0][1] == t[2][1][1]:
+            return t[2][0][1]
+        return None
+
+    def loop_exits_only_on_exhaustion_q(h):
+        # the interior site returns from inside the loop; every OTHER exit must be exhaustion of the iterator
+        body = q.natural_loop(h)
+        for b in body:
+            for sx in q.succs(b):
+                if sx in body or not q.can_return(sx):
+                    continue
+                blk = q.blocks[b]
+                if blk.term.k == "switch" and {int(v): tg for v, tg in blk.term.j["arms"]}.get(0) == sx and blk.stmts and blk.stmts[-1].k == "assign" and blk.stmts[-1].rv.k == "discr":
+                    continue
+                # an exit that leads straight to a return through the interior site is fine
+                if "interior" in sites and q.dominates(sx, sites["interior"][0]):
+                    continue
+                return False
+        return True
+
+    sites = {}
+    start = 0           # the loop runs over centroids[start..]
+    for bi, t, a in interp_sites(q, tb):
+        kind = None
+        ca, cb = mean_arg(a[0]), mean_arg(a[1])
+        if a[0] == ("field", selfp, "min") and cb == first:
+            kind = "left"
+        elif ca is not None and cb is not None and cb[0] == "elem":
+            # interior: right knot = the loop's current centroid, left knot = its predecessor
+            stream = cb[1]
+            st_ok = stream == cents
+            if stream[0] == "index" and stream[1] == cents and stream[2][0] == "adt" and stream[2][1] == "std::ops::RangeFrom":
+                a0 = dict(stream[2][3]).get("start")
+                if a0 is not None and a0[0] == "const" and a0[1] == 1:
+                    st_ok, start = True, 1
+            pred_ok = False
+            if st_ok and start == 0:
+                pred_ok = ca == ("index", cents, mk("Sub", ("enum_idx", cents), const(1)))
+            elif st_ok and ca[0] == "loopvar":
+                # predecessor carried in a local: seeded with centroids[start-1], replaced by the current centroid in every iteration
+                pred_ok = tb.loop_init(ca[1], ca[2]) == ("index", cents, const(start - 1)) and tb.loop_update(ca[1], ca[2]) == cb
+            if st_ok and pred_ok:
+                kind = "interior"
+                cur, prev = cb, ca
+        elif ca is not None and a[1] == ("field", selfp, "max"):
+            kind = "right"
+        if kind is None:
+            ctx.shape("R15-knots", "%s:bb-site(%s,%s)" % (q.key, fmt(a[0])[:40], fmt(a[1])[:40]), t.span, "interpolate between unrecognised end points %s and %s" % (fmt(a[0]), fmt(a[1])))
+            continue
+        sites[kind] = (bi, t, a)
+    if "right" in sites:
+        # the left knot of the right tail is the last centroid: centroids[len-1], or the carried predecessor after the loop ran to exhaustion
+        z = mean_arg(sites["right"][2][0])
+        carried_prev = "interior" in sites and prev[0] == "loopvar" and z == prev and any(loop_exits_only_on_exhaustion_q(h) for h in q.loop_heads())
+        if z == last or carried_prev:
+            last = z
+        else:
+            ctx.shape("R15-knots", "%s:right-knot" % q.key, sites["right"][1].span, "right tail starts at %s, not at the last centroid" % fmt(z))
+            del sites["right"]
     ctx.floor("R15-knots:quantile", len(sites), 3, "interpolation sites in quantile (left tail, interior, right tail)")
     cumv = None
     for kind, (bi, t, a) in sorted(sites.items()):
@@ -103,8 +165,68 @@ def run(ctx):
     if cumv is not None:
         init = tb.loop_init(cumv[1], cumv[2])
         upd = tb.loop_update(cumv[1], cumv[2])
-        ctx.check(init == const(0.0) and upd == mk("Add", ("field", cur, "count"), cumv), "R15-knots", q.key + ":cum", q, "cum accumulates centroid weights from 0",
+        want_init = const(0.0) if start == 0 else ("field", first, "count")
+        ctx.check(init == want_init and upd == mk("Add", ("field", cur, "count"), cumv), "R15-knots", q.key + ":cum", q, "cum accumulates centroid weights from the weight before the first visited centroid",
                   "cumulative weight is initialised with %s and updated with %s" % (fmt(init), fmt(upd)))
+    # ---- segment selection: the guards that choose between the three (correct) interpolation formulas -------------
+    def subst(t, m):
+        if t in m:
+            return m[t]
+        if isinstance(t, tuple):
+            return tuple(subst(x, m) for x in t)
+        return t
+
+    def cmp_norm(c, tr):
+        """(strict?, linear form L) meaning L < 0 / L <= 0; None when c is not an ordering comparison"""
+        if not (c[0] == "op" and c[1] in ("Le", "Lt", "Ge", "Gt") and len(c[2]) == 2):
+            return None
+        a, b = c[2]
+        if c[1] in ("Ge", "Gt"):
+            a, b = b, a
+        strict = c[1] in ("Lt", "Gt")
+        if not tr:
+            a, b, strict = b, a, not strict
+        return strict, lin(mk("Sub", a, b))
+
+    def neg_norm(n):
+        strict, (atoms, c) = n
+        return (not strict), ({k: -v for k, v in atoms.items()}, -c)
+
+    if "interior" in sites and cumv is not None:
+        bi, t, a = sites["interior"]
+        fs = atomic_facts(q, prog, bi, tb)
+        wc = ("field", cur, "count")
+        # (1) the segment [prev, cur] is chosen when rank(cur) = cum + w_cur/2 reaches the wanted rank (either strictness)
+        sel = [(c, tr) for c, tr in fs if cumv in subterms(c) and cmp_norm(c, tr) is not None]
+        want = ({repr(limit): 1.0, repr(cumv): -1.0, repr(wc): -0.5}, 0.0)
+        oksel = [(c, tr) for c, tr in sel if cmp_norm(c, tr)[1] == want]
+        ctx.check(bool(oksel), "R15-segment-guards", q.key + ":interior", t.span, "the interior segment is selected by limit <= cum + w_cur/2 (rank of the right knot)",
+                  "quantile: the interior segment is selected under %s, not when the rank of its right knot `cum + w_cur/2` reaches `limit` (t leaves [0,1]: not monotone)" % (
+                      "; ".join("%s is %s" % (fmt(c), tr) for c, tr in sel) or "no comparison with the running weight"))
+        # (2) hand-over between the left tail and the loop: the site reads centroids[i-1], so the first iteration (cum = its initial value,
+        # cur = centroids[0]) must be excluded by a dominating guard that is the SAME float comparison (a merely real-equivalent one rounds
+        # differently: i = 0 reaches centroids[i - 1])
+        if prev[0] == "index" and prev in subterms(a[0]) and oksel:
+            c0, tr0 = oksel[0]
+            at_first = subst(c0, {cumv: tb.loop_init(cumv[1], cumv[2]), cur: first})
+            need = neg_norm(cmp_norm(at_first, tr0))
+            have = [cmp_norm(c, tr) for c, tr in fs if cumv not in subterms(c) and cur not in subterms(c) and cmp_norm(c, tr) is not None]
+            ctx.check(need in have, "R15-segment-guards", q.key + ":handover", t.span, "the left-tail test excludes exactly the loop test at i = 0 (same float comparison), so centroids[i-1] is never reached with i = 0",
+                      "quantile: the loop reads centroids[i-1], but no dominating test excludes its own selection test at the first centroid (%s with cum = %s): a q between the two roundings selects i = 0 and panics / indexes out of bounds" % (
+                          fmt(at_first), fmt(tb.loop_init(cumv[1], cumv[2]))))
+    if "left" in sites:
+        bi, t, a = sites["left"]
+        fs = atomic_facts(q, prog, bi, tb)
+        wf = ("field", first, "count")
+        have = [cmp_norm(c, tr) for c, tr in fs if cmp_norm(c, tr) is not None]
+
+        def times_s(x):     # S > 0 on a non-empty digest: `a <= b / S` and `a * S <= b` select the same tail over the reals
+            return x[2][0] if (x[0] == "op" and x[1] == "Div" and x[2][1] == S) else mk("Mul", S, x)
+        have += [cmp_norm((c[0], c[1], tuple(times_s(x) for x in c[2])), tr) for c, tr in fs if cmp_norm(c, tr) is not None and S in subterms(c)]
+        want = ({repr(limit): 1.0, repr(wf): -0.5}, 0.0)
+        ctx.check(any(h[1] == want for h in have), "R15-segment-guards", q.key + ":left", t.span, "the left tail is selected by limit <= w_first/2",
+                  "quantile: the left tail is not selected by comparing `limit` with the rank `w_first/2` of the first knot (facts: %s)" % "; ".join("%s is %s" % (fmt(c), tr) for c, tr in fs)[:300])
+
     # empty -> NaN
     rt = tb.return_term()
     alts = rt[1] if rt[0] == "phi" else (rt,)
@@ -113,13 +235,12 @@ def run(ctx):
 
     # ---- cdf ---------------------------------------------------------------------------------------------
     tc = TermBuilder(cdf, prog)
+    cur = ("elem", cents)       # cdf visits every centroid (quantile's loop may start at the second one)
     x_p = ("param", 2, cdf.local_name(2))
     csites = {}
-    for bi, t in cdf.calls():
-        if t.callee() == ip.key:
-            a = [tc.operand(z, bi, len(cdf.blocks[bi].stmts)) for z in t.args]
-            kind = "right" if a[1] == S else "interior"
-            csites[kind] = (bi, t, a)
+    for bi, t, a in interp_sites(cdf, tc):
+        kind = "right" if a[1] == S else "interior"
+        csites[kind] = (bi, t, a)
     ctx.floor("R15-knots:cdf", len(csites), 2, "interpolation sites in cdf")
     for kind, (bi, t, a) in sorted(csites.items()):
         lc, b, tt = a
